@@ -11,8 +11,8 @@ E1 = "stateless schedule exploration of the real code (source-instrumented, cont
 checks = {
  # id: (engine, technique, level text, level note, design ref)
  "C06": ("E2", E2,
-   "Every history over the 15-operation deque/pool alphabet is executed on a fresh real LinkedListQueue and compared step by step with an ideal deque; the search runs until no new canonical state (complete node graph + model) appears, i.e. the reachable state space for <=3 (quick) / <=5 (thorough) stored items is closed.",
-   "Bound on stored items; values are opaque to the container (renaming argument); sync.Pool treated as allocator.", "DESIGN.md §3, §5 C06"),
+   "Every history over the 15-operation deque/pool alphabet is executed on a fresh real LinkedListQueue and compared step by step with an ideal deque; the search runs until no new canonical state (complete node graph incl. the objects retained by sync.Pool + model) appears, i.e. the reachable state space for <=3 (quick) / <=5 (thorough) stored items is closed - under each of three sync.Pool policies (hands back nothing / last put / first put; the library is built with its sync import redirected to a shim). Plus the burst family fill n, drain n, fill n, drain n+1 (tail- and head-wise) for EVERY n up to 600 (thorough 1500), which crosses any free-list / pool-size threshold below that bound.",
+   "Bound on stored items for the closed search, bound on n for bursts; values are opaque to the container (renaming argument); sync.Pool behaviour enumerated as three deterministic policies.", "DESIGN.md §3, §5 C06"),
  "C12": ("E1", E1,
    "All schedules (pre-emption bound 2 quick / 3 thorough) of 1-4 senders x 1-2 messages on Handler.NewByCh / Actor.NewByOptions with capacities 0-2, Close followed by further submissions, and spawn trees (from the driver, from inside an effect, under a closed parent) are executed on the instrumented real code; the enter/leave log must show exactly-once, non-overlapping, per-sender-ordered processing.",
    "Bounded threads/messages/pre-emptions; SC interleavings; vsched runtime model.", "DESIGN.md §2, §5 C12"),
